@@ -11,7 +11,7 @@ import (
 func init() {
 	register(&Check{
 		ID: "C02", Level: "exploration", QuickSecs: 150, ThoroughSecs: 1500,
-		Rule:        "skeletons over {'a',[ab],.,\"é\",&{},!{},#{}} x {?,*,+,&,!} x seq/choice up to N nodes (quick 4, thorough 5) wrapped in a rule-level action; left-recursive rules generated with -support-left-recursion (12 grammars: text, pos and the seed as label value in every growth iteration); every placement of <=2 labels on sub-expressions (distinct names, and the same name twice when the two bindings are in different scopes); a scope family (x bound in the rule sequence and again inside each scope-opening construct - & ! ? * + choice alternative, label, recovery - in a sub-sequence that continues after the inner binding; 243 grammars, inputs over {a,b} up to 4); every block receives the labels of its scope; every true/false script of the code predicates, each also with the predicates returning an error next to their boolean; inputs over {a,b,\\n,é} up to L=3; the complete ordered log of block invocations (id, kind, line:col:offset, text, label values), also on abandoned alternatives, and the parse result are compared with the reference interpreter; with Memoize (bodies up to 3 nodes in the quick tier) each observed invocation must be one the reference also makes; plus a family generated with -optimize-grammar in which a labelled leaf rule is inlined next to equally named labels. Non-trivial = at least two block invocations of which one on a later-abandoned path or after a backtrack. Plus a line/column family (12 terminals spanning or following line ends - newline first / middle / last / only rune of a literal, CR LF, non-ASCII next to a newline, classes, any - in ordered pairs, two shapes, all 8 flag sets without left recursion, inputs over {a,newline,b} up to 4) and the cross family (cross.go, bodies <= 3 nodes x 16 flag sets, complete block log).",
+		Rule:        "skeletons over {'a',[ab],.,\"é\",&{},!{},#{}} x {?,*,+,&,!} x seq/choice up to N nodes (quick 4, thorough 5) wrapped in a rule-level action; left-recursive rules generated with -support-left-recursion (12 grammars: text, pos and the seed as label value in every growth iteration); every placement of <=2 labels on sub-expressions (distinct names, and the same name twice when the two bindings are in different scopes); a scope family (x bound in the rule sequence and again inside each scope-opening construct - & ! ? * + choice alternative, label, recovery - in a sub-sequence that continues after the inner binding; 243 grammars, inputs over {a,b} up to 4); every block receives the labels of its scope; every true/false script of the code predicates, each also with the predicates returning an error next to their boolean; inputs over {a,b,\\n,é} up to L=3; the complete ordered log of block invocations (id, kind, line:col:offset, text, label values), also on abandoned alternatives, and the parse result are compared with the reference interpreter; with Memoize (bodies up to 3 nodes in the quick tier) each observed invocation must be one the reference also makes; plus a family generated with -optimize-grammar in which a labelled leaf rule is inlined next to equally named labels. Non-trivial = at least two block invocations of which one on a later-abandoned path or after a backtrack. Plus a recovery scope family (x bound in the guarded expression of a recovery operator, a throw from 7 kinds of nested scope, recovery expressions whose predicate and action receive x and bind y, with and without an outer x; 42 grammars) and a line/column family (12 terminals spanning or following line ends - newline first / middle / last / only rune of a literal, CR LF, non-ASCII next to a newline, classes, any - in ordered pairs, two shapes, all 8 flag sets without left recursion, inputs over {a,newline,b} up to 4) and the cross family (cross.go, bodies <= 3 nodes x 16 flag sets, complete block log).",
 		Assumptions: []string{"E1 loader", "which labels a block receives is C04's concern; here the values bound to them are checked"},
 		Run:         runC02,
 	})
@@ -209,6 +209,51 @@ func runC02(c *ShardCtx) {
 							nontrivial: nontriv, confEvery: 23, confQuota: 1, cmp: core.CmpOpts{SkipNoMatch: true}}
 						runGrammar(c, g, fam)
 					}
+				}
+			}
+		}
+	}
+	// recovery scope family: a recovery operator opens one label scope for its guarded and its
+	// recovery expression. A label x bound in the guarded expression before a throw that happens in
+	// a nested scope (choice alternative, ?, *, label, predicate, called rule, nested sequence); the
+	// recovery expression holds a predicate and an action that receive x, may bind y, and an outer x
+	// of the enclosing scope must survive; the throw site has its own x in some variants
+	{
+		lit := peg.Lit
+		sites := []func() *peg.Expr{
+			func() *peg.Expr { return peg.Throw("l") },
+			func() *peg.Expr { return peg.Choice(lit("b"), peg.Throw("l")) },
+			func() *peg.Expr { return peg.Opt(peg.Seq(lit("b"), peg.Throw("l"))) },
+			func() *peg.Expr { return peg.Star(peg.Seq(peg.Label("x", lit("b")), peg.Throw("l"))) },
+			func() *peg.Expr { return peg.Label("z", peg.Seq(peg.Label("x", peg.Opt(lit("b"))), peg.Throw("l"))) },
+			func() *peg.Expr { return peg.And(peg.Seq(peg.Opt(lit("b")), peg.Throw("l"))) },
+			func() *peg.Expr { return peg.Ref("T") },
+		}
+		recs := []func() *peg.Expr{
+			func() *peg.Expr { return peg.Action(0, peg.Seq(peg.AndCode(0), peg.Opt(lit("b")))) },
+			func() *peg.Expr { return peg.Action(0, peg.Seq(peg.Label("y", peg.Opt(peg.Any())), peg.AndCode(0))) },
+			func() *peg.Expr { return peg.Seq(peg.Label("y", lit("b")), peg.AndCode(0)) },
+		}
+		for _, site := range sites {
+			for _, rec := range recs {
+				for outer := 0; outer < 2; outer++ {
+					idx++
+					if !c.Mine(idx) {
+						continue
+					}
+					op := peg.Recover(peg.Seq(peg.Label("x", lit("a")), site()), rec(), "l")
+					var top *peg.Expr
+					if outer == 0 {
+						top = peg.Seq(op, peg.AndCode(0), peg.Star(peg.Any()))
+					} else {
+						top = peg.Seq(peg.Label("x", peg.Opt(lit("b"))), op, peg.AndCode(0), peg.Star(peg.Any()))
+					}
+					g := &peg.Grammar{Rules: []*peg.Rule{{Name: "S", Expr: peg.Action(0, top)}, {Name: "T", Expr: peg.Seq(peg.Label("x", peg.Opt(lit("b"))), peg.Throw("l"))}}}
+					peg.Renumber(g, 1)
+					peg.AssignArgs(g)
+					fam := &family{gens: gens2, inputs: peg.Inputs([]string{"a", "b"}, 4), opts: []rtapi.RunOpts{{MaxExpr: 600, Filename: "f"}}, scripts: predScripts(g, func(e *peg.Expr) rtapi.Block { return rtapi.Block{} }),
+						nontrivial: nontriv, confEvery: 7, confQuota: 1, cmp: core.CmpOpts{SkipNoMatch: true}}
+					runGrammar(c, g, fam)
 				}
 			}
 		}
